@@ -1682,3 +1682,105 @@ pub fn finish_carry_marker() {
 pub fn finish_carry_lits() {
     finish_with_carry::<2, 3, 0, 0>()
 }
+
+// ---------------------------------------------------------------------------------------
+// C14 / C10: the raw decoder wrappers (LzmaDecoder::new / reset), reset_state observed
+// ---------------------------------------------------------------------------------------
+pub fn observing_reset_state_lzma(d: &mut DecoderState, new_props: LzmaProperties) {
+    d.lzma_props = new_props;
+    note_reset(d);
+}
+
+//@ harness props=C14,C10,C07 tier=quick unwind=8 mem_gb=4 timeout=600 native=no
+//@ bound: LzmaDecoder::new (any dict_size, memlimit, size) and LzmaDecoder::reset(None | Some(None) | Some(Some(n))) with reset_state observed
+#[cfg_attr(kani, kani::proof)]
+#[cfg_attr(kani, kani::stub(std::fmt::format, crate::verif_common::stub_format))]
+#[cfg_attr(kani, kani::stub(std::io::Error::is_interrupted, crate::verif_common::stub_not_interrupted))]
+#[cfg_attr(kani, kani::stub(crate::decode::lzma::DecoderState::new, crate::decode::stream::verif_h::new_scripted_lit))]
+#[cfg_attr(kani, kani::stub(crate::decode::lzma::DecoderState::reset_state, crate::decode::lzma::verif_h::observing_reset_state_lzma))]
+pub fn raw_lzma_decoder_new_reset() {
+    let mut t = Tape::<48>::new();
+    let dict = t.u32();
+    let size0_some = t.bool();
+    let size0 = t.u64();
+    let ml_some = t.bool();
+    let ml = t.usize();
+    let pb = (t.u8() % 5) as u32;
+    let params = LzmaParams {
+        properties: LzmaProperties { lc: 3, lp: 0, pb },
+        dict_size: dict,
+        unpacked_size: if size0_some { Some(size0) } else { None },
+    };
+    let r = LzmaDecoder::new(params, if ml_some { Some(ml) } else { None });
+    match r {
+        Ok(mut dec) => {
+            vassert!(dict != 0, "raw decoder: a zero dictionary size is not accepted by the constructor");
+            vassert!(dec.memlimit == if ml_some { ml } else { usize::MAX }, "raw decoder: memlimit None means unlimited");
+            vassert!(dec.params.dict_size == dict, "raw decoder: dictionary size kept");
+            vassert!(dec.state.unpacked_size == params.unpacked_size, "raw decoder: initial expected size");
+            let mode = t.u8() % 3;
+            let n = t.u64();
+            let arg = match mode {
+                0 => None,
+                1 => Some(None),
+                _ => Some(Some(n)),
+            };
+            // make the state dirty in a field reset_state (observed) does not touch
+            dec.state.state = 5;
+            dec.reset(arg);
+            vassert!(reset_count(&dec.state) == 1, "raw decoder: reset resets the decoder state exactly once");
+            vassert!(dec.state.lzma_props.lc == 3 && dec.state.lzma_props.lp == 0 && dec.state.lzma_props.pb == pb, "raw decoder: reset uses the decoder's own properties");
+            let want = match mode {
+                0 => params.unpacked_size,
+                1 => None,
+                _ => Some(n),
+            };
+            vassert!(dec.state.unpacked_size == want, "raw decoder: reset keeps the expected size on None and replaces it on Some");
+            vcover!(mode == 2, "reset_with_size");
+            forget(dec);
+        }
+        Err(e) => {
+            vassert!(dict == 0, "raw decoder: the constructor only refuses a zero dictionary size");
+            vcover!(true, "zero_dict_refused");
+            forget(e);
+        }
+    }
+}
+
+//@ harness props=C10,C12,C01 tier=quick unwind=8 unwindset=process_mode:5,default_read_exact:4,extend_with:3 mem_gb=6 timeout=600 native=no
+//@ bound: LzmaDecoder::decompress (one-shot path) on preamble + one 2-byte abstract literal, declared size 1, symbolic memlimit and dictionary size: Ok iff min(dict, 1) <= memlimit; output flushed
+#[cfg_attr(kani, kani::proof)]
+#[cfg_attr(kani, kani::stub(std::fmt::format, crate::verif_common::stub_format))]
+#[cfg_attr(kani, kani::stub(std::io::Error::is_interrupted, crate::verif_common::stub_not_interrupted))]
+#[cfg_attr(kani, kani::stub(crate::decode::lzma::DecoderState::process_next_inner, crate::decode::lzma::verif_h::abs_symbol))]
+#[cfg_attr(kani, kani::stub(crate::decode::lzbuffer::LzCircularBuffer::from_stream, crate::decode::lzbuffer::verif_h::circ_from_stream_with_capacity))]
+pub fn raw_lzma_decompress_memlimit() {
+    let mut t = Tape::<32>::new();
+    let f = [t.u8(), t.u8(), t.u8(), t.u8(), t.u8(), t.u8(), t.u8(), 0xEE];
+    let ml = t.usize();
+    let dict = t.u32();
+    assume(dict >= 2);
+    let mut st = light_state::<0>(LzmaProperties { lc: 0, lp: 0, pb: 0 }, Some(1));
+    set_script(&mut st, [script(2, K_LIT), script(20, K_LIT), script(20, K_LIT), script(20, K_LIT)]);
+    let mut dec = LzmaDecoder {
+        params: LzmaParams { properties: LzmaProperties { lc: 0, lp: 0, pb: 0 }, dict_size: dict, unpacked_size: Some(1) },
+        memlimit: ml,
+        state: st,
+    };
+    let mut rd = ArrReader::<8>::new(f, 8);
+    let mut sink = RecSink::<4>::new();
+    let r = dec.decompress(&mut rd, &mut sink);
+    let ok = r.is_ok();
+    forget(r);
+    vassert!(ok == (ml >= 1), "one-shot decoder: succeeds iff the window actually needed (1 byte) fits the memory limit");
+    if ok {
+        vassert!(sink.len == 1 && sink.buf[0] == f[5] ^ f[6], "one-shot decoder: output delivered");
+        vassert!(sink.flushes >= 1 && sink.flushed_len == 1, "one-shot decoder: sink flushed after the last byte");
+        vassert!(rd.pos == 7, "one-shot decoder: reader left right after the payload (size-bounded decode)");
+    } else {
+        vassert!(sink.len == 0, "one-shot decoder: nothing written when the limit is exceeded at the first byte");
+    }
+    vcover!(ok, "fits");
+    vcover!(!ok, "limit_exceeded");
+    forget(dec);
+}
